@@ -63,19 +63,40 @@ def exc_kind(e):
     return {'err': 1 if isinstance(e, BiogemeError) else 2, 'exc': type(e).__name__, 'msg': str(e)[:160]}
 
 
+def _objects(c, make, spec_cls):
+    """nest objects of the case, with the names / the history the case asks for:
+    names[j]    : name given by the user to nest j (None: unnamed)
+    prev_pos[j] : 1-based position at which the object of nest j was placed in an EARLIER specification
+                  (it then carries the name that specification generated for it)"""
+    names = c.get('names') or [None] * len(c['nests'])
+    prev = c.get('prev_pos') or [None] * len(c['nests'])
+    objs = []
+    for j, n in enumerate(c['nests']):
+        o = make(n, names[j])
+        if prev[j]:
+            fillers = tuple(make([{'n': 1.0}, []], None) for _ in range(int(prev[j]) - 1))
+            spec_cls(choice_set=list(c['choice_set']) + list(_keys(n)), tuple_of_nests=fillers + (o,))
+        objs.append(o)
+    return tuple(objs)
+
+
+def _keys(n):
+    return [a[0] if isinstance(a, list) else a for a in n[1]]
+
+
 def nested_args(c, syntax):
     if syntax == 'legacy':
         return tuple((mk_pv(p), list(alts)) for p, alts in c['nests'])
-    ns = tuple(OneNestForNestedLogit(nest_param=mk_pv(p), list_of_alternatives=list(alts))
-               for p, alts in c['nests'])
+    ns = _objects(c, lambda n, nm: OneNestForNestedLogit(nest_param=mk_pv(n[0]), list_of_alternatives=list(n[1]),
+                                                         name=nm), NestsForNestedLogit)
     return NestsForNestedLogit(choice_set=list(c['choice_set']), tuple_of_nests=ns)
 
 
 def cnl_args(c, syntax):
     if syntax == 'legacy':
         return tuple((mk_pv(p), mk_dict(al)) for p, al in c['nests'])
-    ns = tuple(OneNestForCrossNestedLogit(nest_param=mk_pv(p), dict_of_alpha=mk_dict(al))
-               for p, al in c['nests'])
+    ns = _objects(c, lambda n, nm: OneNestForCrossNestedLogit(nest_param=mk_pv(n[0]), dict_of_alpha=mk_dict(n[1]),
+                                                              name=nm), NestsForCrossNestedLogit)
     return NestsForCrossNestedLogit(choice_set=list(c['choice_set']), tuple_of_nests=ns)
 
 
@@ -152,11 +173,25 @@ def alone_probe(c):
     return None
 
 
+def object_names(c):
+    """names borne by the nests of the object-syntax specification (same construction as build())"""
+    kind = c['kind']
+    if 'nests' not in c or not (c.get('names') or c.get('prev_pos')):
+        return None
+    nests = nested_args(c, 'objects') if kind in ('lognested', 'nested', 'lognested_mev_mu', 'nested_mev_mu',
+                                                  'gen_nested', 'mev_nested', 'mev_nested_mu') else cnl_args(c, 'objects')
+    return [str(n.name) for n in nests]
+
+
 def run_case(c):
     out = {}
     for syntax in c.get('syntaxes', ['legacy', 'objects']):
         try:
             out[syntax] = build(c, syntax)
+            if syntax == 'objects':
+                nm = object_names(c)
+                if nm is not None:
+                    out[syntax]['names'] = nm
         except RecursionError as e:  # pragma: no cover
             out[syntax] = {'err': 2, 'exc': 'RecursionError', 'msg': str(e)[:100]}
         except Exception as e:  # noqa
